@@ -21,6 +21,11 @@ CHECKS = {
    note="Trusted: MySQL and PostgreSQL lexical rules transcribed from the manuals (no engine offline; default sql_mode, standard_conforming_strings=on); the SQLite lexer is validated against the engine on every run. Three genuine defects were repaired by fix: commits (see known_findings.json).",
    technique=TECH+"trie of all strings over an alphabet up to a length bound x positions, oracle = reference lexers + real SQLite engine",
    ref="3.3"),
+ "C04": dict(
+   text="All non-empty strings over a 15-symbol identifier-relevant alphabet (both quote characters, backslash, space, dot, semicolon, brackets, $, ?, non-ASCII) up to length 3 (quick) / 4 (thorough) x 86 identifier positions of query and schema statements x 3 backends. Oracle: differential against a benign marker name under the dialect's reference lexer (same token skeleton; every token that carried the marker is one quoted-identifier token decoding to the name). On SQLite the engine confirms by reading the name back (column_name, sqlite_master, pragma_table_xinfo).",
+   note="Trusted: MySQL / PostgreSQL identifier quoting rules from the manuals; SQLite validated against the engine. Names ending in [] are excluded for the enum cast (documented array-cast spelling). One genuine defect class repaired by a fix: commit.",
+   technique=TECH+"trie of all strings over an alphabet up to a length bound x positions, oracle = reference lexers + real SQLite engine",
+   ref="3.4"),
  "C10": dict(
    text="Explicit-state BFS over ALL histories of a 27-operation INSERT alphabet (columns / values / values_panic / values_from_panic / select_from / or_default_values*, column counts 0..3, row lengths 0..4) up to depth 6 (quick) / 8 (thorough) on the real InsertStatement, in lock-step with a plain-list reference model. Per step: Result / panic vs the contract, error counts, statement unchanged after a rejection. Per state: rendering on 3 backends x {to_string, build} parsed back by an independent parser and compared with the model (rectangularity, call order, default-values form).",
    note="Trusted: the reference model of the documented contract (lists), the reference lexer and the 150-line INSERT parser. One genuine defect is a known finding (columns() after a source was accepted).",
